@@ -115,7 +115,7 @@ func C09(ctx *Ctx) {
 	pos := ctx.Prog.Pos(pk.Type("Header").Pos())
 	leaves, total, errs := flattenHeader(hs)
 	R.Count("header-leaf-fields", len(leaves))
-	R.Floor("header-leaf-fields", 30)
+	R.Floor("header-leaf-fields", 25)
 	for _, e := range errs {
 		R.Fail("layout", "encoding:"+strings.SplitN(e, ":", 2)[0], pos, e)
 	}
